@@ -338,7 +338,11 @@ fn run_check(prop: &str, tier: Tier) -> i32 {
         .set("samples", J::Arr(samples))
         .set("exhaustive", info.exhaustive && !capped)
         .set("bounds", info.bounds.clone());
-    let states = g("states").max(g("env_nodes"));
+    let mut states = g("states").max(g("env_nodes"));
+    if states == 0 && g("transitions") > 0 {
+        // explicit-state checks count their distinct states through the cross-worker distinct set
+        states = distinct;
+    }
     let transitions = g("transitions").max(g("actions_compared"));
     if states > 0 && transitions > 0 {
         cov.put("states", states);
